@@ -1263,6 +1263,9 @@ def run(ck, tier, rng):
         elif diffs:
             ck.notes.append("%d correspondence diffs besides the concrete findings" % diffs)
     codec_diffs, codec_docs = codec_phase(ck, tier, rng, schema)
+    # the one place where the real parser is known to leave the reader the codec theorems are about (recorded finding)
+    from checks import xmltree_phase
+    boundary = xmltree_phase.boundary_probe_core(ck)
     ck.broken_build(oracle_found_concrete=len(ck.violations) > 0)
     return ck.finish(
         rule="histories over the 15 properties: strings of every length 0..256 (%s) over ASCII, markup, white-space-only, astral, BMP and random XML characters; datetimes over years 1..9999 incl. below 1000, leap days, 23:59:59, microseconds, aware values; revision values; wrong types; element text written directly in every W3CDTF granularity x offsets -14:00..+14:00 (%s) and mutated/malformed text; permutations of all 15 assignments; 1-3 save/re-open cycles; default-part creation; calendar ordinals (%s); plus %d codec documents (states of 0-15 children built through the API, by element text incl. texts beyond 255 / 300 characters, and by get_or_add alone; texts of blanks only, leading / trailing blanks, CR / LF / TAB in every arrangement, markup characters, reference- / CDATA- / tag-like text, non-ASCII blanks, the ends of the XML Char ranges, beyond-BMP characters, empty strings; dates with and without xsi:type; both roots): bytes written (first and second save) and the re-opened readings compared with model/CorePropsCodec.v. Non-trivial = an accepted assignment or written text followed by a further operation, a written timestamp with a non-zero offset, a string of length >= 254, or a datetime assignment" % (
@@ -1270,7 +1273,7 @@ def run(ck, tier, rng):
             "65 sampled" if tier == "quick" else "all 1681 minute offsets",
             "21 windows of 400 days" if tier == "quick" else "every day of years 1..9999", codec_docs),
         trusted_base=TB, assumptions=ASSUME,
-        extra={"correspondence_diffs": diffs, "codec_documents": codec_docs, "codec_diffs": codec_diffs, "exhaustive": False, "xmlschema_oracle": schema is not None},
+        extra={"correspondence_diffs": diffs, "codec_documents": codec_docs, "codec_diffs": codec_diffs, "blank_text_at_block_boundary": boundary, "exhaustive": False, "xmlschema_oracle": schema is not None},
     )
 
 
